@@ -58,29 +58,29 @@ def main():
         meta["suite_with_patch"] = {"passed": passed, "failed": failed, "rc": rc2}
         meta["ran"] += ["cargo test -p %s --test %s (without / with patch)" % (pkg, tname), "cargo test --workspace --no-fail-fast --offline (with patch)"]
         meta["demo_path"] = rel
-    finally:
-        sh(["git", "-C", "/repo", "worktree", "remove", "--force", wt])
-        shutil.rmtree(wt, ignore_errors=True)
-    valid = meta.get("patch_applies") and meta.get("demo_passes_without_patch") and meta.get("demo_fails_with_patch") and meta["suite_with_patch"]["failed"] == 0 and meta["suite_with_patch"]["rc"] == 0
+    except Exception as e:
+        meta["error"] = str(e)
+    valid = meta.get("patch_applies") and meta.get("demo_passes_without_patch") and meta.get("demo_fails_with_patch") and meta.get("suite_with_patch", {}).get("failed", 1) == 0 and meta["suite_with_patch"]["rc"] == 0
     meta["valid"] = bool(valid)
     results = {}
-    if valid:
-        rc, out = sh(["git", "-C", "/repo", "status", "--porcelain", "--untracked-files=no"])
-        if out.strip():
-            print("refusing: /repo has uncommitted changes")
-            return 2
-        rc, out = sh(["git", "-C", "/repo", "apply", patch])
-        try:
+    try:
+        if valid:
+            # the patch is still applied in the scratch worktree: run the checks against it (VERIF_REPO), /repo is untouched
+            env = dict(os.environ)
+            env["VERIF_REPO"] = wt
             for c in checks:
                 t0 = time.time()
-                rc, out = sh([os.path.join(V, "bin", "check"), c, "--tier", tier], cwd=V, timeout=7200)
+                p = subprocess.run([os.path.join(V, "bin", "check"), c, "--tier", tier], cwd=V, stdout=subprocess.PIPE, stderr=subprocess.STDOUT, text=True, timeout=7200, env=env)
+                rc, out = p.returncode, p.stdout
                 viol = [l for l in out.splitlines() if l.startswith("VIOLATION")]
                 what = [l.strip() for l in out.splitlines() if l.strip().startswith("what:")]
                 results[c] = {"exit": rc, "violations": len(viol), "first": what[:2], "wall_s": round(time.time() - t0, 1),
-                              "drift": next((l for l in out.splitlines() if l.startswith("DRIFT")), "")[:200]}
-                meta["ran"].append("bin/check %s --tier %s (patch applied to /repo, restored afterwards)" % (c, tier))
-        finally:
-            sh(["git", "-C", "/repo", "checkout", "--", "."])
+                              "drift": next((l for l in out.splitlines() if l.startswith("DRIFT")), "")[:200],
+                              "tool_error": next((l for l in out.splitlines() if l.startswith("TOOL-ERROR")), "")[:300]}
+                meta["ran"].append("bin/check %s --tier %s against a scratch worktree of /repo with the patch applied (VERIF_REPO)" % (c, tier))
+    finally:
+        sh(["git", "-C", "/repo", "worktree", "remove", "--force", wt])
+        shutil.rmtree(wt, ignore_errors=True)
     meta["checks"] = results
     meta["caught_by"] = [c for c, r in results.items() if r["exit"] == 1]
     mm = re.search(r"(?is)(needs?|manifest|trigger)[^\n]*\n?(.{0,600})", notes)
